@@ -13,7 +13,7 @@ PROPERTIES = {
         "level_note": "Trusted: the harness world (sim/worlds/eworld.py), the normalisation of results to serial numbers, and the engine's behaviour in isolation as reference. Assumed: per-run bounds (<=3 queries, <=6 tasks, <=70 ops, <=5 items per domain). One open finding (known_findings.json F-C03-3) is suppressed only when its neutraliser makes the verdict disappear.",
         "technique": "deterministic simulation: seeded cooperative scheduling of evaluation generators with abandonment/gc faults, differential oracle against isolated evaluation, ddmin-minimised replay files",
         "tiers": {
-            "quick": {"runs": 12000, "wall_s": 150, "triage_s": 60},
+            "quick": {"runs": 10000, "wall_s": 150, "triage_s": 60},
             "thorough": {"runs": 600000, "wall_s": 3000, "triage_s": 300},
         },
         "cfg": {},
@@ -25,7 +25,29 @@ PROPERTIES = {
             "bounds per run: <=3 queries, <=3 variables, <=5 items per domain, <=6 tasks, <=70 ops",
         ],
     },
+    "C10": {
+        "machine": "eval_sim",
+        "engine": "Sim-E",
+        "level": "exploration",
+        "level_text": "Seeded search over query shapes, stream-backed domains and stop points k: the event monitor stamps every user-code event (attribute read, method/predicate/function call, container access, stream pull) with the consumer's phase, and the rules L1-L7 are checked on that history - no event during construction, evaluate() call, idle/close/drop/gc; prefix property of the first k results; exact demand on the driving stream (single-variable queries), existence of a driver (conjunctive multi-variable queries), bounded steps over an unbounded stream. Exploration because the claim is about when user code runs relative to the consumer's actions, which only an owned schedule of next()/close() calls with logged streams can observe.",
+        "design_ref": "DESIGN.md section 5, C10",
+        "level_note": "Trusted: the instrumented world (every attribute of an item is a logging property, streams log every pull), the phase bracketing of the machine. Demand rules L5/L6 apply only to the query classes stated in DESIGN.md (union-, quantifier- and sub-query-free); other shapes are checked with L1-L4 only. Pattern-matching construction (entity_matching) is not in the workload.",
+        "technique": "deterministic simulation: consumer-step schedule with stop-after-k/close/drop/gc faults over logged one-shot and unbounded streams; event-order oracle plus prefix oracle against isolated evaluation",
+        "tiers": {
+            "quick": {"runs": 10000, "wall_s": 150, "triage_s": 60},
+            "thorough": {"runs": 800000, "wall_s": 3000, "triage_s": 300},
+        },
+        "cfg": {},
+        "rule": "one run = one generated scenario in one of four modes (single-variable query over a stream; 2-3 variable conjunctive query over streams; general query incl. rule queries, sub-queries, quantifiers; single-variable query over an unbounded stream) + a consumer schedule (start, k steps, optional drain, close/drop/leave, gc). Non-trivial: at least one stream-backed domain with >=2 elements (or unbounded) and at least one user-code event. Distinct: hash of (query shape without constants, op list, domain kinds).",
+        "components": REAL_EQL,
+        "assumptions": [
+            "L4 compares with the real engine evaluating the same query on a freshly built scenario; semantic correctness of that evaluation is out of scope",
+            "L5/L6 are checked only for union-free, quantifier-free, sub-query-free an(...) queries over stream domains; a join re-ordering optimisation cannot trip L6",
+            "sampling, not enumeration",
+        ],
+    },
 }
+
 
 
 ENGINES = {
@@ -54,5 +76,5 @@ NOT_APPLICABLE = {
     "C11": "pattern matching vs explicit query: pure in (pattern, data); " + _PURE,
     "C12": "predicates/symbolic functions, concrete vs symbolic call: pure in (signature, call shape, binding); " + _PURE,
     "C18": "JSON round trip: pure in the value; " + _PURE,
-    "C10": _WIP, "C13": _WIP, "C14": _WIP, "C15": _WIP, "C16": _WIP, "C17": _WIP, "C19": _WIP, "C20": _WIP,
+    "C13": _WIP, "C14": _WIP, "C15": _WIP, "C16": _WIP, "C17": _WIP, "C19": _WIP, "C20": _WIP,
 }
